@@ -452,8 +452,20 @@ func classifyMiss(F *facts, reported map[int]bool, g *fnFacts) string {
 				continue
 			}
 			ms := F.prog.MethodSets.MethodSet(mi.X.Type())
+			names := ifaceMethodNames(mi.Type())
 			for i := 0; i < ms.Len(); i++ {
 				if F.prog.MethodValue(ms.At(i)) == g.fn {
+					// a method the conversion's interface names (or any method, for the empty interface) must
+					// have been reported at the conversion: then the mechanism is broken, not widened around
+					listed := len(names) == 0
+					for _, n := range names {
+						if n == ms.At(i).Obj().Name() {
+							listed = true
+						}
+					}
+					if listed {
+						return "MakeInterface-not-applied"
+					}
 					return "widening"
 				}
 			}
